@@ -119,14 +119,7 @@ def norm_model(line, op_kind=None):
     return line
 
 
-def compare_case(drv, tkey, hist, chk=True, probe=True, cls=None):
-    """returns (status, detail): status in agree | unmodelled | disagree"""
-    ml = drv.ask_many(model_lines(drv, 1, tkey, hist, chk, probe))
-    rl, inst = real_lines(tkey, hist, chk, probe, cls=cls)
-    if any(l == 'unmodelled' for l in ml):
-        return 'unmodelled', (ml, rl, inst)
-    # 'check' ops are observed through obs on the model side: compare only the r= part
-    j = 0
+def op_kinds(hist, probe=True):
     ops = ['new']
     for op in hist:
         ops.append(op[0])
@@ -135,12 +128,29 @@ def compare_case(drv, tkey, hist, chk=True, probe=True, cls=None):
     ops.append('obs')
     if probe:
         ops.append('probe')
+    return ops
+
+
+def compare_case(drv, tkey, hist, chk=True, probe=True, cls=None):
+    """returns (status, detail). status: agree | disagree-full | disagree-simple.
+    The driver answers `<Mfull>|<Msimple or ->`; the real library must equal Mfull on every type
+    and Msimple wherever Msimple is defined (Tame types inside its envelope)."""
+    ml = drv.ask_many(model_lines(drv, 1, tkey, hist, chk, probe))
+    rl, inst = real_lines(tkey, hist, chk, probe, cls=cls)
+    ops = op_kinds(hist, probe)
+    simple_live = True
+    n_simple = 0
     for k, (m, r) in enumerate(zip(ml, rl)):
-        if ops[k] == 'check':
-            m = m.split(' ')[-1]
-        if m != r:
-            return 'disagree', (k, ops[k], m, r, ml, rl, inst)
-    return 'agree', (ml, rl, inst)
+        f, _, s_ = m.partition('|')
+        if f != r:
+            return 'disagree-full', (k, ops[k], f, r, ml, rl, inst)
+        if s_ == '-':
+            simple_live = False
+        if simple_live and s_ != '':
+            n_simple += 1
+            if s_ != r:
+                return 'disagree-simple', (k, ops[k], s_, r, ml, rl, inst)
+    return 'agree', (ml, rl, inst, simple_live)
 
 
 if __name__ == '__main__':
@@ -159,8 +169,8 @@ if __name__ == '__main__':
             hist = gen_history(rnd, tkey, kind)
             st, d = compare_case(drv, tkey, hist)
             stats[st] += 1
-            if st == 'disagree':
-                bad.append((tkey, kind, hist, d[:4]))
+            if st != 'agree':
+                bad.append((tkey, kind, hist, st, d[:4]))
     print(dict(stats), 'in %.1fs' % (time.time() - t0))
     seen = set()
     for b in bad:
